@@ -10,6 +10,13 @@ claim("C01", "decision-table extraction over finite abstract domains (sign of Co
       "For every input: the row filter appends the loop's own row exactly once iff the WHERE predicate is true and returns predicate errors; each of = != < <= > >= returns the reference truth table of sign(compare.Compare(unwrap(Left), unwrap(Right))); IN/NOT IN use the same equality oracle and are complements on the found/exhausted paths; BETWEEN is (c1>=0 && c2<=0)==IsBetween over unwrapped point/from/to; LIKE quotes the pattern before translating exactly % and _, anchored, same case fold; AND/OR/NOT/IS tables over all IsExprOperator constants. A violated row breaks C01 for some table; passing does not prove result equality.",
       NOTE, "DESIGN.md 2/C01")
 
+claim("C05", "guarded-index prover over dominating branch facts (len, not cap) + decision table of the ORDER BY comparator + wiring checks (go/ssa)",
+      "For every input: each reslice of the result in exec is proven within len of the very value resliced, OFFSET is applied before LIMIT is clamped, absent LIMIT/OFFSET default to all/0, and no error exit exists in the window code; the comparator's full table (no keys, NULL first/second, sign of Compare, ASC/DESC, tie => same comparator on the remaining keys with the same slice,i,j) equals the reference; Sort/ExecOrderBy/exec wiring and the BuildLimit/BuildOrder field correspondences hold. Does not prove sortedness of concrete outputs (sort.Slice trusted).",
+      NOTE, "DESIGN.md 2/C05")
+claim("C15", "decision table over order classes + type-lattice check of every conversion on the comparison path, per generic instantiation (go/ssa with instantiated generics)",
+      "For every input: every return of Compare/Cmp[T]/compare[T] (all 12+12 instantiations) is in {-1,0,1} or strings.Compare; Cmp[T] is the trichotomy of the two values it compares; both operands are converted exactly (no float->int, signed->unsigned, narrowing) into one comparison type D for all 12x12 (T,S) pairs; dispatch covers all 12 numeric types on both sides with operands in order; text comparisons put the left operand first. Antisymmetry/transitivity follow by argument from these, they are not computed on values.",
+      NOTE, "DESIGN.md 2/C15")
+
 _pending = "rule set for this property is not implemented yet in this round (see DESIGN.md section 2 for the planned structural rules)"
 for p in ["C01","C02","C03","C04","C05","C06","C07","C09","C10","C11","C12","C13","C14","C15","C16","C17","C18","C19","C20"]:
     if p not in CLAIMED:
